@@ -12,13 +12,13 @@ claimed = {
  "C05": ("exploration", "5/C05", "seeded search over byte streams x segmentations x injected transport errors against the real frame.Reader; oracles: totality, progress (<= n+1 calls), chunking independence, span = frame, resynchronisation on clean streams",
          "samples of an unbounded input/segmentation space",
          "deterministic simulation with fault injection: simulated transport (segmentation, zero-length reads, EOF, injected read error)"),
- "C06": ("fault_enumeration", "5/C06", "every single-bit alteration of a reference-signed frame (enumerated) and forged / unsigned / v1 / wrong-key / re-stamped frames through the real keyed reader with a reference SHA-256 verdict; signed output of streamwriter.Writer and frame.Writer.WriteMessage verified by the reference; node-level signing verified in C09/C10/C11 wire logs",
+ "C06": ("fault_enumeration", "5/C06", "every single-bit alteration of a reference-signed frame (enumerated) and forged / unsigned / v1 / wrong-key / re-stamped frames through the real keyed reader with a reference SHA-256 verdict; signed output of streamwriter.Writer and frame.Writer.WriteMessage verified by the reference; a real node with an incoming key (any outgoing version) under the C10 event-stream oracles; node-level outgoing signing verified in the C09/C11 wire logs",
          "frames and keys are sampled; per frame the single-bit tampering space is enumerated completely",
          "deterministic simulation with fault injection: tampering link; fake clock for the writer side"),
  "C07": ("exploration", "5/C07", "timestamp histories (boundary alphabet, window edges, random 48-bit) of correctly signed frames through the real keyed reader, compared frame by frame with an executable replay-window model; outgoing timestamps checked against the fake clock (drawn start date, drawn pauses) for formula and monotonicity",
          "histories are sampled; clock steps backwards are not injected (the synctest clock is monotone)",
          "deterministic simulation: reordering/duplicating link as timestamp histories, executable reference model, fake clock"),
- "C10": ("exploration", "5/C10", "whole-system simulation of a real node with 1..3 endpoints, scripted peers, consumer paces, concurrent writers, disconnects, node close; seeded search over schedules x chunkings x fault sequences; per-channel event-stream oracles (open first, close last, frames = valid frames sent, in order, attributed)",
+ "C10": ("exploration", "5/C10", "whole-system simulation of a real node with 1..3 (thorough: 5) endpoints of all seven kinds, scripted peers (valid / damaged frames, junk, chunking, FIN / RST / unplug, data handed over together with EOF, returning datagram peers, lossy datagram networks), consumer paces, concurrent writers, stream requests, short idle timeouts, node close; seeded search over schedules x chunkings x fault sequences; per-channel event-stream oracles (open first, close last, frames = valid frames sent, in order, attributed)",
          "samples of the schedule/fault space; simulated sockets/serial stand in for kernels",
          "deterministic simulation with fault injection: cooperative scheduler in a synctest bubble over an instrumented build"),
  "C20": ("fault_enumeration", "5/C20", "for each generated entry sequence: every cut offset of the file (crash) and every (failing write, accepted prefix) pair is enumerated against the real tlog.Writer/Reader; byte-exact file format against the reference",
@@ -44,7 +44,7 @@ claimed.update({
  "C14": ("exploration", "5/C14", "fault plans of 2..5 sessions per endpoint kind (refused / hanging / failed attempts, EOF, RST, injected read error at the k-th read, silence with optional keep-alive at 0.9 idle periods); oracles: cause in the close event, first attempt immediate, >= 1 s between attempts and after the close event, one connection/channel at a time, fresh channel at quiescence, per-call deadlines from the transport log",
          "samples of the fault-sequence space; the reconnect delay is bounded (>= 1 s, fresh channel within 12 s), not mirrored from the code; custom and broadcast endpoints get no read faults (re-provide storm, see DESIGN.md)",
          "deterministic simulation with fault injection: read/connect faults on simulated transports, fake clock"),
- "C15": ("exploration", "5/C15", "the union of the node workloads in a -race build under the same engine; the race detector is happens-before based and the engine's hand-offs are hidden from it, so unsynchronised access pairs are reported although execution is serialised",
+ "C15": ("exploration", "5/C15", "the union of the node workloads plus close-while-opening, router and reuse workloads in a -race build under the same engine; the race detector is happens-before based and the engine's hand-offs are hidden from it, so unsynchronised access pairs are reported although execution is serialised",
          "samples of the schedule space; dynamic race detection only sees accesses that the workloads perform",
          "deterministic simulation under the Go race detector (engine invisible to it)"),
  "C16": ("exploration", "5/C16", "simulated minutes to hours on the fake clock with drawn heartbeat / dialect / stream-request configurations and arrival histories of ArduPilot and other heartbeats from several identities per channel; heartbeat instants exact in runs without stalls; stream-request model per (channel, system, component)",
